@@ -190,6 +190,12 @@ var solvers = []solverSpec{
 	{"cvc5/enum-inst", func(f string, t int) []string {
 		return []string{"cvc5", "--strings-exp", "--enum-inst", fmt.Sprintf("--tlimit=%d", t*1000), f}
 	}},
+	{"z3-new/arith.solver=2", func(f string, t int) []string {
+		return []string{"z3-new", fmt.Sprintf("-T:%d", t), "smt.arith.solver=2", f}
+	}},
+	{"z3-new/auto_config=false", func(f string, t int) []string {
+		return []string{"z3-new", fmt.Sprintf("-T:%d", t), "smt.auto_config=false", f}
+	}},
 }
 
 func solverVersions() map[string]string {
